@@ -1,5 +1,8 @@
 import MD.Model.Num
 import MD.Model.Iso
+import MD.Model.Score
+import MD.Model.Ident
+import MD.Model.Config
 /-! JSON-lines driver: one request per line on stdin, one response per line on stdout. -/
 open Lean MD
 
@@ -44,6 +47,61 @@ def getBool (j : Json) (k : String) : Except String Bool :=
   | .ok (.bool b) => .ok b
   | _ => .error s!"missing bool {k}"
 
+def getFloat (j : Json) (k : String) : Except String Float :=
+  match (j.getObjVal? k) with
+  | .ok v => match floatOfJson? v with
+    | some q => .ok q
+    | none => .error s!"bad float bits in {k}"
+  | .error e => .error e
+
+def getFloats (j : Json) (k : String) : Except String (List Float) :=
+  match (j.getObjVal? k) with
+  | .ok v => match floatsOfJson? v with
+    | some q => .ok q
+    | none => .error s!"bad float list in {k}"
+  | .error e => .error e
+
+def getOptFloats (j : Json) (k : String) : Except String (Option (List Float)) :=
+  match (j.getObjVal? k) with
+  | .ok .null => .ok none
+  | .ok v => match floatsOfJson? v with
+    | some q => .ok (some q)
+    | none => .error s!"bad float list in {k}"
+  | .error _ => .ok none
+
+open MD.Cfg in
+partial def progOfJson (j : Json) : Except String Prog := do
+  let t ← getStr j "t"
+  let val (s : String) : Except String Val := match s with
+    | "none" => pure .none | "mpl" => pure .mpl | "plotly" => pure .plotly | "bad" => pure .bad
+    | _ => throw "bad val"
+  match t with
+  | "skip" => pure .skip
+  | "seq" => do
+    let a ← progOfJson (← j.getObjVal? "a")
+    let b ← progOfJson (← j.getObjVal? "b")
+    pure (.seq a b)
+  | "set" => do pure (.set (← val (← getStr j "v")))
+  | "get" => pure .getMutate
+  | "raise" => pure .raise
+  | "block" => do
+    let v ← val (← getStr j "v")
+    let b ← progOfJson (← j.getObjVal? "body")
+    pure (.block v b)
+  | "catch" => do
+    let b ← progOfJson (← j.getObjVal? "body")
+    pure (.catch b)
+  | _ => throw "bad prog"
+
+open MD.Cfg in
+def backendStr : Backend → String
+  | .mpl => "matplotlib"
+  | .plotly => "plotly"
+
+open MD.Cfg in
+def outStr : Out → String
+  | .ok => "ok" | .valueError => "ValueError" | .moduleNotFound => "ModuleNotFoundError" | .userExc => "UserExc"
+
 def blocksJson (bs : List (Blk Rat)) : Json :=
   Json.mkObj [("x", ratsToJson (expand bs)), ("r", natsToJson (bounds bs))]
 
@@ -86,6 +144,47 @@ def handle (j : Json) : Except String Json := do
     | "qlower" => pure (Json.mkObj [("v", ratToJson (qLower α obs))])
     | "qupper" => pure (Json.mkObj [("v", ratToJson (qUpper α obs))])
     | _ => throw "unknown functional"
+  | "score" =>
+    -- floats travel as bit patterns
+    let kind ← getStr j "kind"
+    let h ← getFloat j "h"
+    let α ← getFloat j "level"
+    let y ← getFloats j "y"
+    let z ← getFloats j "z"
+    let w ← getOptFloats j "w"
+    match ScoreKind.ofString? kind with
+    | none => throw "unknown score kind"
+    | some k =>
+      match scorePerObs k h α y z with
+      | .error e => pure (errJson e)
+      | .ok per =>
+        match average per w with
+        | .error e => pure (Json.mkObj [("per_obs", floatsToJson per), ("mean_err", .str (errName e))])
+        | .ok m => pure (Json.mkObj [("per_obs", floatsToJson per), ("mean", floatToJson m)])
+  | "ident" =>
+    let f ← getStr j "f"
+    let α ← getRat j "level"
+    let y ← getRats j "y"
+    let z ← getRats j "z"
+    match identArr (Functional.ofString? f) α y z with
+    | .error e => pure (errJson e)
+    | .ok v => pure (Json.mkObj [("v", ratsToJson v)])
+  | "elem" =>
+    let f ← getStr j "f"
+    let α ← getRat j "level"
+    let η ← getRat j "eta"
+    let y ← getRats j "y"
+    let z ← getRats j "z"
+    let old ← getBool j "old"
+    match elemArr old (Functional.ofString? f) α η y z with
+    | .error e => pure (errJson e)
+    | .ok v => pure (Json.mkObj [("v", ratsToJson v)])
+  | "config" =>
+    let avail ← getBool j "avail"
+    let p ← progOfJson (← j.getObjVal? "prog")
+    let (s, o, t) := MD.Cfg.exec avail p .mpl
+    pure (Json.mkObj [("state", .str (backendStr s)), ("out", .str (outStr o)),
+      ("trace", .arr (t.map (fun b => Json.str (backendStr b))).toArray)])
   | _ => throw s!"unknown op {op}"
 
 partial def loop (hin : IO.FS.Stream) (hout : IO.FS.Stream) : IO Unit := do
